@@ -444,7 +444,7 @@ LEVELS['C01'] = 'proof'; LEVELS['C07'] = 'proof'
 UNITS['build'] = {
     'opaque': [' get_lock$'],
     'dyn_types': [r'^sequence_handler<[012]>$', r'^call_matcher<int\(int\),std::tuple<wildcard>>$', r'^return_handler_t<int\(int\),\(lambdaat.*\)>$'],
-    'roots': {'BUILD': '^_ZN14vp_trompeloeil8vp_buildE', 'BUILD_PLAIN': '^_ZN14vp_trompeloeil14vp_build_plainE', 'BUILD_FORBID': '^_ZN14vp_trompeloeil15vp_build_forbidE',
+    'roots': {'BUILD': '^_ZN14vp_trompeloeil8vp_buildE', 'BUILD_PLAIN': '^_ZN14vp_trompeloeil14vp_build_plainE', 'BUILD_FORBID': '^_ZN14vp_trompeloeil15vp_build_forbidE', 'BUILD_AT_MOST': '^_ZN14vp_trompeloeil16vp_build_at_mostE', 'BUILD_AT_LEAST': '^_ZN14vp_trompeloeil17vp_build_at_leastE', 'BUILD_ALLOW': '^_ZN14vp_trompeloeil14vp_build_allowE',
               'MK_M': '^_ZN14vp_trompeloeil4vp_MC1Ev$', 'MK_SEQ': '^_ZN11trompeloeil8sequenceC1Ev$', 'M_DTOR': 'dtor:^vp_vp_M$', 'SEQ_DTOR': 'dtor:^sequence$',
               'CM': r'rec:^call_matcher<int\(int\),std::tuple<wildcard>>$', 'SM': 'rec:^sequence_matcher$', 'SH1': 'rec:^sequence_handler<1>$', 'SH0': 'rec:^sequence_handler<0>$'},
 }
@@ -453,7 +453,7 @@ UNITS['build'] = {
 UNITS['build_full'] = copy.deepcopy(UNITS['build'])
 UNITS['build_full']['dyn_types'] += [r'^condition<int\(int\),\(lambdaat.*\)>$', r'^side_effect<int\(int\),\(lambdaat.*\)>$']
 UNITS['build_full']['roots'].update({'BUILD_FULL': '^_ZN14vp_trompeloeil13vp_build_fullE', 'MOCK_FUNC': '9mock_funcILb0EFiiEJRiEE', 'SH2': 'rec:^sequence_handler<2>$'})
-for e, props in (('b_rt_times', ['C01', 'C03', 'C04', 'C05', 'C06', 'C08', 'C14', 'C15']), ('b_two_in_sequence', ['C02', 'C04', 'C05', 'C06', 'C14']), ('b_plain_and_forbid', ['C02', 'C03', 'C04', 'C05', 'C07', 'C14', 'C15']),
+for e, props in (('b_rt_times', ['C01', 'C03', 'C04', 'C05', 'C06', 'C08', 'C14', 'C15']), ('b_two_in_sequence', ['C02', 'C04', 'C05', 'C06', 'C14']), ('b_plain_and_forbid', ['C02', 'C03', 'C04', 'C05', 'C07', 'C14', 'C15']), ('b_multiplicities', ['C03', 'C04', 'C14']),
                  ('b_full_expectation', ['C01', 'C03', 'C04', 'C05', 'C06', 'C08', 'C14', 'C15', 'C16'])):
     ob(name='build.%s' % e[2:], kind='FC+' if e in ('b_rt_times', 'b_full_expectation') else 'BL', props=props, unit='build_full' if e == 'b_full_expectation' else 'build', harness='h_build.c', entry=e, unwind=6, timeout=600,
        defines={'WANT_FULL': 1} if e == 'b_full_expectation' else {},
